@@ -415,3 +415,10 @@ def h_soe_sig(ctx, it):
     o = run_soe(ctx, it, 2, [0], [1], 'both', 'real', None)
     st = it.getattr(it.getattr(o['mod'], 'sig_in')[0], 'state')
     ctx.prove('matrix_signal_state_is_not_the_free_block', not (isinstance(st, Obj) and st.tag == 'sparse' and st.fields['dense'].shape == (1, 1)))
+
+
+# the LDAS wrapper's update (clears the stored bases, re-detects the decoupled dofs for EVERY new matrix) is part of what makes "x = A^-1 b for the
+# CURRENT matrix" true when LinSolve wraps its solver: the C06 obligations on that function are regenerated under this property as well
+from . import C06 as _c06   # noqa: E402,F401
+from pvc.runner import HARNESSES as _H   # noqa: E402
+_H[(P, 'solver_contract.LDAWrapper.update.clears')] = dict(_H[('C06', 'LDAWrapper.update.clears')])
